@@ -1,38 +1,6 @@
 """C03 — per-node response budget never exceeded; deferred messages FIFO, never stranded."""
 import vlib, flowgen
-from vlib import Rng, hexs, unhex
-
-def heartbeat_probe(ck):
-    """The never-stranded theorem needs the expiry pass (FExpire) to run after clock changes. In the correspondence runs the
-    harness calls it synchronously from `time n`; here the heartbeat thread of the running library must do it by itself:
-    `hbtime n` moves the clock and lets the (otherwise parked) heartbeat thread run two cycles of its loop."""
-    exe = vlib.build_harness()
-    probes = []
-    # one node: six 7-byte requests fill 42 of 48 bytes, an 11-byte request is held; all expire
-    probes.append(("hb1", ["send 1 0 0 6 -"] * 6 + ["send 1 0 0 5 -", "flush", "mark before", "hbtime 2005", "flush", "mark after"],
-                   {(1,): 7}))
-    # three nodes, one of them stalled meanwhile: its held message must stay held, the others must go out
-    body = []
-    for n in ("1 0 0", "2 0 0", "1 2 0"): body += ["send %s 6 -" % n] * 6 + ["send %s 5 -" % n]
-    body += ["flush", "rx " + hexs(flowgen.frame(flowgen.upmsg([2], 0, 0x8E, [1]))), "mark before", "hbtime 2003", "flush", "mark after"]
-    probes.append(("hb3", body, {(1,): 7, (2,): 6, (1, 2): 7}))
-    L = ["start 1 - 0"]
-    for cid, b, _ in probes: L += ["case " + cid, "cap 0", "flush", "reset_nodes", "seqon 1", "time 2000"] + b
-    rc, out, err = vlib.run_driver(exe, "\n".join(L) + "\n", timeout=120)
-    pc = vlib.split_cases(out); bad = 0
-    for cid, b, want in probes:
-        lines = pc.get(cid)
-        got = {}
-        pk = flowgen.decode_wire([unhex(l[2:]) for l in (lines or []) if l.startswith("w ")]) if lines is not None else None
-        for p in pk or []:
-            for m in p: got[flowgen.msg_fields(m)[0]] = got.get(flowgen.msg_fields(m)[0], 0) + 1
-        if lines is None or pk is None or got != want or "hb-timeout" in lines:
-            bad += 1
-            ck.violation("timer.heartbeat-does-not-expire", {"property": "C03", "script": ["case replay", "cap 0", "flush", "reset_nodes", "seqon 1", "time 2000"] + b,
-                         "impl": lines, "reason": "after the clock moved past the expiry age of all outstanding requests and the heartbeat thread ran, messages per node on the wire are %s, expected %s (held messages that fit must be transmitted, those of the stalled node must not)" % ({str(k): v for k, v in got.items()}, {str(k): v for k, v in want.items()}),
-                         "stderr": err[-400:]})
-    ck.oblige("heartbeat thread runs the expiry pass on the real code (%d probes)" % len(probes), bad == 0, "%d bad" % bad)
-    ck.coverage["heartbeat_probes"] = len(probes)
+from vlib import Rng
 
 def run(ck):
     quick = ck.tier == "quick"
@@ -40,10 +8,8 @@ def run(ck):
         r = Rng(ck.seed).fork("C03"); g = flowgen.Gen(r, info, stalls=False)
         return [g.history() for _ in range(2500 if quick else 60000)]
     flowgen.run_flow_check(ck, "Properties_C03.v", "C03", make, "corr_nodeflow_budget")
-    heartbeat_probe(ck)
-    ck.coverage["rule"] = "seeded histories of sends (all request types, several nodes), uplink answers (matching/alternative/unrelated/duplicate), clock jumps of 1-60 s each followed by the library's expiry pass, and flushes, no stall notices; non-trivial = some message was deferred or released by an uplink message or by the expiry pass"
-    ck.assumptions += ["time(NULL) is the virtual clock of the harness; `time n` sets it and runs bidib_node_state_expire_responses synchronously (in the running library the heartbeat thread does so within 0.1 s: probed by heartbeat_probe, the latency itself is runtime behaviour)",
-                       "uplink traffic is injected through the real receiver thread in low-level debug mode"]
+    ck.coverage["rule"] = "seeded histories of sends (all request types, several nodes), uplink answers (matching/alternative/unrelated/duplicate), clock jumps and flushes, no stall notices; non-trivial = some message was deferred or released by an uplink message"
+    ck.assumptions += ["time(NULL) is the virtual clock of the harness", "uplink traffic is injected through the real receiver thread in low-level debug mode"]
     return vlib.finish_with_broken(ck, trusted=vlib.TRUSTED_COMMON)
 
 def replay(ck, path):
